@@ -302,7 +302,17 @@ pub mod cluster {
         keyspaces: &[KeyspaceSpec],
         tablet_tables: &HashMap<String, Vec<String>>,
     ) -> ClusterState {
-        build_state(None, nodes, keyspaces, tablet_tables).await
+        build_state(None, nodes, keyspaces, tablet_tables, &HashMap::new()).await
+    }
+
+    /// As `cluster_from_topology_with_tablets`, plus materialized views per tablet keyspace.
+    pub async fn cluster_from_topology_with_tablets_and_views(
+        nodes: &[NodeSpec],
+        keyspaces: &[KeyspaceSpec],
+        tablet_tables: &HashMap<String, Vec<String>>,
+        tablet_views: &HashMap<String, Vec<String>>,
+    ) -> ClusterState {
+        build_state(None, nodes, keyspaces, tablet_tables, tablet_views).await
     }
 
     /// A metadata refresh: `previous.new_updated(metadata, ..)` with the new topology / keyspaces
@@ -314,16 +324,58 @@ pub mod cluster {
         keyspaces: &[KeyspaceSpec],
         tablet_tables: &HashMap<String, Vec<String>>,
     ) -> ClusterState {
-        build_state(Some(previous), nodes, keyspaces, tablet_tables).await
+        build_state(
+            Some(previous),
+            nodes,
+            keyspaces,
+            tablet_tables,
+            &HashMap::new(),
+        )
+        .await
     }
 
-    async fn build_state(
-        previous: Option<&ClusterState>,
+    /// As `cluster_refresh`, plus materialized views per tablet keyspace.
+    pub async fn cluster_refresh_with_views(
+        previous: &ClusterState,
         nodes: &[NodeSpec],
         keyspaces: &[KeyspaceSpec],
         tablet_tables: &HashMap<String, Vec<String>>,
+        tablet_views: &HashMap<String, Vec<String>>,
     ) -> ClusterState {
-        let peers = nodes
+        build_state(
+            Some(previous),
+            nodes,
+            keyspaces,
+            tablet_tables,
+            tablet_views,
+        )
+        .await
+    }
+
+    /// `previous.new_with_updated_topology(peers, ..)`: peers only; the schema and keyspaces of
+    /// `previous` are kept.
+    pub async fn cluster_refresh_topology(
+        previous: &ClusterState,
+        nodes: &[NodeSpec],
+    ) -> ClusterState {
+        let peers = peers_of(nodes);
+        let node_config = node_config();
+        for node in previous.known_nodes.values() {
+            node.verif_override_state(false, false);
+        }
+        let state = previous
+            .new_with_updated_topology(peers, &node_config, Some(&RejectAll))
+            .await;
+        for spec in nodes {
+            if let Some(node) = state.known_nodes.get(&spec.host_id) {
+                node.verif_override_state(spec.enabled, spec.connected);
+            }
+        }
+        state
+    }
+
+    fn peers_of(nodes: &[NodeSpec]) -> Vec<Peer> {
+        nodes
             .iter()
             .enumerate()
             .map(|(i, n)| Peer {
@@ -336,7 +388,34 @@ pub mod cluster {
                 datacenter: n.datacenter.clone(),
                 rack: n.rack.clone(),
             })
-            .collect();
+            .collect()
+    }
+
+    fn node_config() -> NodeConfig {
+        let (connectivity_events_sender, _) = tokio::sync::mpsc::unbounded_channel();
+        NodeConfig {
+            pool_config: PoolConfig {
+                connection_config: crate::network::connection_verif::connection_config(),
+                pool_size: Default::default(),
+                can_use_shard_aware_port: true,
+                reconnect_policy: Arc::new(
+                    crate::policies::reconnect::ExponentialReconnectPolicy::new(),
+                ),
+            },
+            used_keyspace: None,
+            connectivity_events_sender,
+            metrics: crate::observability::metrics::Metrics::new(),
+        }
+    }
+
+    async fn build_state(
+        previous: Option<&ClusterState>,
+        nodes: &[NodeSpec],
+        keyspaces: &[KeyspaceSpec],
+        tablet_tables: &HashMap<String, Vec<String>>,
+        tablet_views: &HashMap<String, Vec<String>>,
+    ) -> ClusterState {
+        let peers = peers_of(nodes);
         let keyspaces = keyspaces
             .iter()
             .map(|k| {
@@ -345,7 +424,8 @@ pub mod cluster {
                     Ok(Keyspace {
                         strategy: k.strategy.clone(),
                         durable_writes: true,
-                        tablet_based: tablet_tables.contains_key(&k.name),
+                        tablet_based: tablet_tables.contains_key(&k.name)
+                            || tablet_views.contains_key(&k.name),
                         tables: tablet_tables
                             .get(&k.name)
                             .into_iter()
@@ -363,7 +443,17 @@ pub mod cluster {
                                 )
                             })
                             .collect(),
-                        views: HashMap::new(),
+                        views: tablet_views
+                            .get(&k.name)
+                            .into_iter()
+                            .flatten()
+                            .map(|v| {
+                                (
+                                    v.clone(),
+                                    crate::routing::locator::tablets::verif::empty_view(),
+                                )
+                            })
+                            .collect(),
                         user_defined_types: HashMap::new(),
                     }),
                 )
@@ -375,20 +465,7 @@ pub mod cluster {
             cluster_name: None,
             client_routes: None,
         };
-        let (connectivity_events_sender, _) = tokio::sync::mpsc::unbounded_channel();
-        let node_config = NodeConfig {
-            pool_config: PoolConfig {
-                connection_config: crate::network::connection_verif::connection_config(),
-                pool_size: Default::default(),
-                can_use_shard_aware_port: true,
-                reconnect_policy: Arc::new(
-                    crate::policies::reconnect::ExponentialReconnectPolicy::new(),
-                ),
-            },
-            used_keyspace: None,
-            connectivity_events_sender,
-            metrics: crate::observability::metrics::Metrics::new(),
-        };
+        let node_config = node_config();
         let state = match previous {
             None => ClusterState::new(metadata, &node_config, Some(&RejectAll)).await,
             Some(prev) => {
